@@ -14,6 +14,11 @@ Local Open Scope Z_scope.
 
 Definition alloc (s : state) : handle * state := (next s, s <| next ::= Pos.succ |>).
 
+(* a constructor of a kind this layer does not model (signal, type, unit, attribute, builder, …):
+   it only consumes a handle, so that handles stay the global creation index *)
+Definition new_other (s : state) : state * result :=
+  let '(_, s) := alloc s in ok s.
+
 (* NewNetwork *)
 Definition new_network (s : state) : state * result :=
   let '(h, s) := alloc s in ok (s <| nets ::= <[h := mkNet ∅ ∅]> |>).
